@@ -205,7 +205,7 @@ fn install_overflow_probe() {
 		let ss = libc::stack_t { ss_sp: stack, ss_flags: 0, ss_size: ALT };
 		libc::sigaltstack(&ss, std::ptr::null_mut());
 		let mut sa: libc::sigaction = std::mem::zeroed();
-		sa.sa_sigaction = overflow_probe as usize;
+		sa.sa_sigaction = overflow_probe as *const () as usize;
 		sa.sa_flags = libc::SA_SIGINFO | libc::SA_ONSTACK;
 		libc::sigemptyset(&mut sa.sa_mask);
 		libc::sigaction(libc::SIGSEGV, &sa, std::ptr::null_mut());
@@ -337,7 +337,7 @@ pub fn err_class(msg: &str) -> String {
 			if !out.is_empty() {
 				out.push(' ');
 			}
-			out.push_str(tok);
+			out.push_str(if tok == "\"\"" { tok } else { core });
 			prev_blank = false;
 		} else if !prev_blank {
 			if !out.is_empty() {
@@ -391,6 +391,7 @@ fn worker(thorough: bool, page: &Page, jobs: &[JobSpec], scratch: &std::path::Pa
 			CUR_IDX.store(i, Ordering::SeqCst);
 			page.set(S_IDX, i);
 			SEQ.fetch_add(1, Ordering::SeqCst);
+			let cpu0 = if trace { thread_cpu_s(CLOCK_ID.load(Ordering::SeqCst)) } else { 0.0 };
 			LIMIT.store(LIVE.load(Ordering::SeqCst).saturating_add(input.len().saturating_mul(ALLOC_FACTOR)).saturating_add(ALLOC_SLACK), Ordering::SeqCst);
 			let out = run_case(p, &input, scratch);
 			LIMIT.store(usize::MAX, Ordering::SeqCst);
@@ -427,7 +428,9 @@ fn worker(thorough: bool, page: &Page, jobs: &[JobSpec], scratch: &std::path::Pa
 					"panic".to_owned()
 				},
 			};
-			if i == job.from || trace {
+			if trace {
+				emit(&format!("S {j} {i} {verdict} cpu={:.3}s len={}\n", thread_cpu_s(CLOCK_ID.load(Ordering::SeqCst)) - cpu0, input.len()));
+			} else if i == job.from {
 				emit(&format!("S {j} {i} {verdict}\n"));
 			}
 		}
